@@ -30,10 +30,14 @@ type Op struct {
 type Scenario struct {
 	QueueBound int  `json:"queue_bound"`
 	Ops        []Op `json:"ops"`
+	// CoarseClock: the sequencing layer stamps its batches with a coarse clock (10 s granularity), so
+	// consecutive batches carry equal timestamps - which block production accepts.
+	CoarseClock bool `json:"coarse_clock,omitempty"`
 }
 
 func gen(t *rapid.T) Scenario {
 	sc := Scenario{QueueBound: rapid.SampledFrom([]int{1, 1, 2, 3, 1000}).Draw(t, "bound")}
+	sc.CoarseClock = rapid.IntRange(0, 2).Draw(t, "clock") == 0
 	n := rapid.IntRange(3, world.Scale(12, 24)).Draw(t, "nops")
 	pool := [][]byte{}
 	for i := 0; i < n; i++ {
@@ -68,6 +72,7 @@ type seqLog struct {
 	inner    coresequencer.Sequencer
 	released *[][][]byte
 	refused  *int
+	coarse   bool
 }
 
 func (s seqLog) SubmitBatchTxs(ctx context.Context, req coresequencer.SubmitBatchTxsRequest) (*coresequencer.SubmitBatchTxsResponse, error) {
@@ -80,6 +85,9 @@ func (s seqLog) SubmitBatchTxs(ctx context.Context, req coresequencer.SubmitBatc
 
 func (s seqLog) GetNextBatch(ctx context.Context, req coresequencer.GetNextBatchRequest) (*coresequencer.GetNextBatchResponse, error) {
 	r, err := s.inner.GetNextBatch(ctx, req)
+	if err == nil && r != nil && s.coarse {
+		r.Timestamp = r.Timestamp.Truncate(10 * time.Second)
+	}
 	if err == nil && r != nil && r.Batch != nil && len(r.Batch.Transactions) > 0 {
 		cp := make([][]byte, len(r.Batch.Transactions))
 		for i, tx := range r.Batch.Transactions {
@@ -100,6 +108,7 @@ type pipeline struct {
 	released [][][]byte
 	refused  int
 	bound    int
+	coarse   bool
 	// releasedInCrashedStep marks batches released by a step that then died
 	releasedInCrashedStep map[int]bool
 }
@@ -109,12 +118,12 @@ func (pl *pipeline) wire() error {
 	if err != nil {
 		return err
 	}
-	pl.p.SeqOverride = seqLog{inner: seq, released: &pl.released, refused: &pl.refused}
+	pl.p.SeqOverride = seqLog{inner: seq, released: &pl.released, refused: &pl.refused, coarse: pl.coarse}
 	return nil
 }
 
 func newPipeline(sc Scenario, dir string) (*pipeline, error) {
-	pl := &pipeline{bound: sc.QueueBound, releasedInCrashedStep: map[int]bool{}}
+	pl := &pipeline{bound: sc.QueueBound, coarse: sc.CoarseClock, releasedInCrashedStep: map[int]bool{}}
 	p, err := pw.New(world.NodeOpts{ChainID: "c11-chain", InitialHeight: 1, RootDir: dir})
 	if err != nil {
 		return nil, err
